@@ -8,6 +8,11 @@ open Lean.Grind
 
 variable {F : Type} [CommRing F]
 
+theorem Quad.add_def (a b : Quad F) : a + b = ⟨a.c0 + b.c0, a.c1 + b.c1⟩ := rfl
+theorem Quad.sub_def (a b : Quad F) : a - b = ⟨a.c0 - b.c0, a.c1 - b.c1⟩ := rfl
+theorem Cubic.add_def (a b : Cubic F) : a + b = ⟨a.c0 + b.c0, a.c1 + b.c1, a.c2 + b.c2⟩ := rfl
+theorem Cubic.sub_def (a b : Cubic F) : a - b = ⟨a.c0 - b.c0, a.c1 - b.c1, a.c2 - b.c2⟩ := rfl
+
 theorem quadMul_eq (nr : F → F) (β : F) (hnr : ∀ x, nr x = β * x) (a b : Quad F) :
     quadMul nr a b = quadMulSpec β a b := by
   simp only [quadMul, quadMulSpec, hnr, Quad.mk.injEq]
@@ -33,7 +38,7 @@ theorem blsFp2MulNr_eq (a : Quad F) : blsFp2MulNr a = quadMulSpec (-1 : F) a ⟨
   constructor <;> grind
 
 theorem bnFq2MulNr_eq (a : Quad F) : bnFq2MulNr a = quadMulSpec (-1 : F) a ⟨9, 1⟩ := by
-  simp only [bnFq2MulNr, quadMulSpec, Quad.mk.injEq, HAdd.hAdd, Add.add]
+  simp only [bnFq2MulNr, quadMulSpec, Quad.mk.injEq, Quad.add_def]
   constructor <;> grind
 
 theorem cubicMul_eq (nr : F → F) (ξ : F) (hnr : ∀ x, nr x = ξ * x) (a b : Cubic F) :
@@ -80,5 +85,21 @@ theorem mulBy01_eq (nr : F → F) (ξ : F) (hnr : ∀ x, nr x = ξ * x) (a : Cub
     mulBy01 nr a c0 c1 = cubicMulSpec ξ a ⟨c0, c1, 0⟩ := by
   simp only [mulBy01, cubicMulSpec, hnr, Cubic.mk.injEq]
   refine ⟨?_, ?_, ?_⟩ <;> grind
+
+theorem mulBy014_eq (nr : F → F) (ξ : F) (hnr : ∀ x, nr x = ξ * x) (a : Quad (Cubic F)) (c0 c1 c4 : F) :
+    mulBy014 nr a c0 c1 c4 =
+      ⟨cubicMulSpec ξ a.c0 ⟨c0, c1, 0⟩ + cubicMulNr nr (cubicMulSpec ξ a.c1 ⟨0, c4, 0⟩),
+       cubicMulSpec ξ a.c0 ⟨0, c4, 0⟩ + cubicMulSpec ξ a.c1 ⟨c0, c1, 0⟩⟩ := by
+  simp only [mulBy014, mulBy01, mulBy1, cubicMulNr, cubicMulSpec, hnr, Quad.mk.injEq, Cubic.mk.injEq,
+    Cubic.add_def, Cubic.sub_def]
+  refine ⟨⟨?_, ?_, ?_⟩, ⟨?_, ?_, ?_⟩⟩ <;> grind
+
+theorem mulBy034_eq (nr : F → F) (ξ : F) (hnr : ∀ x, nr x = ξ * x) (a : Quad (Cubic F)) (c0 c3 c4 : F) :
+    mulBy034 nr a c0 c3 c4 =
+      ⟨cubicMulSpec ξ a.c0 ⟨c0, 0, 0⟩ + cubicMulNr nr (cubicMulSpec ξ a.c1 ⟨c3, c4, 0⟩),
+       cubicMulSpec ξ a.c0 ⟨c3, c4, 0⟩ + cubicMulSpec ξ a.c1 ⟨c0, 0, 0⟩⟩ := by
+  simp only [mulBy034, mulBy01, cubicMulNr, cubicMulSpec, hnr, Quad.mk.injEq, Cubic.mk.injEq,
+    Cubic.add_def, Cubic.sub_def]
+  refine ⟨⟨?_, ?_, ?_⟩, ⟨?_, ?_, ?_⟩⟩ <;> grind
 
 end MidnightZK.C10
